@@ -507,6 +507,9 @@ func thash(m z.VerifTreeMeta, used []byte) [2]uint64 {
 	for i := 0; i < len(m.Extra); i++ {
 		mix(uint64(m.Extra[i]) + uint64(i)<<8)
 	}
+	for i := 0; i < len(m.Page0); i++ {
+		mix(uint64(m.Page0[i]) + uint64(i)<<9)
+	}
 	for _, w := range z.BytesToUint64Slice(used) {
 		mix(w)
 	}
